@@ -13,6 +13,7 @@ mod queue;
 mod bpq;
 mod segbuf;
 mod bloom;
+mod naming;
 mod collection;
 mod reader;
 mod range;
@@ -46,6 +47,7 @@ fn main() {
         bpq::dispatch,
         segbuf::dispatch,
         bloom::dispatch,
+        naming::dispatch,
         collection::dispatch,
         reader::dispatch,
         range::dispatch,
